@@ -194,6 +194,20 @@ def customs(rng, tier):
                           [["accept", "c1", 2000], ["recv", "c1", 1, 1000], ["send", "c1", S.frame(S.OPEN, S.open_body())[:25].hex(), 0],
                            ["sleep", 30], ["api", api]]))
         sid += 1
+        # the connect is stalled (SYNs unanswered) when the stop arrives
+        out.append(Custom(sid, "stop.connect-stalled." + api, [["sleep", 80], ["api", api, 3000]], start_stalled=True))
+        sid += 1
+        # the plugin's capabilities do not fit an OPEN: every connection obtained is closed without a byte, re-dialled after
+        # the idle-hold time, and all of them are closed by the time the stop returns
+        big = [[70, "00" * 250], [71, "00" * 20]]
+        out.append(Custom(sid, "stop.unencodable-open.out." + api,
+                          [["accept", "c1", 1500], ["recv_eof", "c1", 600], ["accept", "c2", 1500], ["sleep", 30], ["api", api],
+                           ["recv_eof", "c2", 600]], caps=big, idle_hold_ms=80))
+        sid += 1
+        out.append(Custom(sid, "stop.unencodable-open.in." + api,
+                          [["dial", "c1"], ["recv_eof", "c1", 600], ["dial", "c2"], ["sleep", 30], ["api", api], ["recv_eof", "c2", 600]],
+                          caps=big, passive=True))
+        sid += 1
         # both connections up (collision in progress, no forcing)
         out.append(Custom(sid, "stop.two-connections." + api,
                           [["accept", "cO", 2000], ["recv", "cO", 1, 1000], ["dial", "cI"], ["recv", "cI", 1, 1000],
